@@ -64,7 +64,8 @@ def replay(tid, cons, styles_by_rank, rounds, rng, variant_override=None):
     styles = [None] * n
     for r, pos in enumerate(perm):
         styles[pos] = sorted(styles_by_rank[r])
-    base = 2 ** 200 + rng.randrange(10 ** 6)
+    # sample numbers: 256-bit integers as the hash gives them, or small ones starting at 0 (assigned by enumeration)
+    base, stride = (2 ** 200 + rng.randrange(10 ** 6), 7) if rng.random() < 0.7 else (-1, 1)
     rank_of_pos = {pos: r + 1 for r, pos in enumerate(perm)}
 
     def mk_cards(variant_votes):
@@ -76,7 +77,7 @@ def replay(tid, cons, styles_by_rank, rounds, rng, variant_override=None):
                 votes["unaudited"] = {"x": 1}
             out.append(CVR(id=f"1-1-{pos}" if not variant_votes else f"9-9-{pos}x", votes=votes,
                            phantom=(variant_votes and False), card_in_batch=pos,
-                           sample_num=base + 7 * rank_of_pos[pos]))
+                           sample_num=base + stride * rank_of_pos[pos]))
         return out
     cvrs = mk_cards(False)
     cvrs_alt = mk_cards(True)
@@ -180,7 +181,7 @@ def replay(tid, cons, styles_by_rank, rounds, rng, variant_override=None):
                 def rank_of_thr(t):
                     if t is None:
                         return 0
-                    return (int(t) - base) // 7
+                    return (int(t) - base) // stride
                 e["out"] = {"indices": idx, "indices_other_votes": idx_alt,
                             "thr": {c: rank_of_thr(contests[c].sample_threshold) for c in cons},
                             "sampled": [k for k, cv in enumerate(cvrs) if cv.sampled],
